@@ -664,6 +664,7 @@ def run(eng, rep):
                 "by an entry obligation proved at each of its call sites (T2); soln.nf/nx slice back only to the counters (T4 role provenance on the "
                 "value-flow graph) and no stale local counter is returned after hand-over; NX is incremented exactly once per invocation before the "
                 "first call and the evaluated x is loop-invariant; every sampling-loop bound originates from max(nsamples(..),1).")
+    rep.explain('Also decided: every early exit (break/return) lexically inside a sampling loop is control dependent on the budget guard (C02-6); all calls of one evaluate_objective invocation receive the same x expression (C02-5).')
     A = anchors(eng)
     if not rule_single_sink(eng, rep, A):
         return
